@@ -48,3 +48,22 @@ Print Assumptions C04_aligned.
 Print Assumptions C04_finger_aligned.
 Print Assumptions C04_actual_cfg_ok.
 Print Assumptions C04_ctor_refuses.
+
+(* ---- tie to the source text: the functions below are parsed from /repo/src on every run
+   (tools/rs2v.py -> LeafActual.v) and evaluated by RustSem.eval ---- *)
+From BV Require Import RustSem ConstsActual LeafActual LeafActualOk.
+From Coq Require Import String.
+Open Scope string_scope.
+Open Scope N_scope.
+
+Theorem C04_source_rounding : forall n d en, pow2 d -> d < W -> n < W ->
+  call_fn src_fns en "round_up_to" [VN n; VN d] = Ret (vopt (round_up_to n d)) /\
+  call_fn src_fns en "round_down_to" [VN n; VN d] = Ret (VN (rdown n d)) /\
+  call_fn src_fns en "round_mut_ptr_down_to" [VN n; VN d] = Ret (VN (rdown n d)) /\
+  call_fn src_fns en "is_pointer_aligned_to" [VN n; VN d] = Ret (VB (n =? rdown n d)).
+Proof.
+  exact (fun n d en Hp Hd Hn => conj (src_round_up_to_ok n d en Hp Hd)
+    (conj (src_round_down_to_ok n d en Hp Hn) (conj (src_round_mut_ptr_down_to_ok n d en Hp Hn)
+      (src_is_pointer_aligned_to_ok n d en Hp Hn)))).
+Qed.
+Print Assumptions C04_source_rounding.
